@@ -36,6 +36,7 @@ type Universe struct {
 	loadSecs    float64
 	fset        *token.FileSet
 	bindingErrs []string
+	cg          *callGraph
 }
 
 var repoPkgs = []string{
